@@ -122,6 +122,9 @@ def coq_make(targets, timeout=1500, jobs=16, remove_first=()):
                 except FileNotFoundError:
                     pass
             coq_project()
+            # the generated files belong to the repository under check (VERIF_REPO may differ
+            # between concurrent dev-time runs): regenerate them under the same lock as the make
+            gen_consts()
             return sh(["make", "-j%d" % jobs] + targets, timeout, cwd=COQ)
         finally:
             fcntl.flock(lk, fcntl.LOCK_UN)
